@@ -51,6 +51,13 @@ def execute(job):
         out["id"] = plan2["id"]
         w = Walker(plan2, res, opts)
         viol, stats = w.run()
+        if opts.get("segments"):
+            from . import segments
+            sv = segments.check(plan2, res)
+            viol = viol + sv
+            stats["segment_oracle_violations"] += len(sv)
+            stats["fs_snapshots"] += sum(1 for ev, _, _ in res for e in ev if e.get("t") == "fs")
+            stats["ro_opens_seen"] += sum(1 for ev, _, _ in res for e in ev if e.get("t") == "ro")
         out["violations"] = viol
         out["stats"] = dict(stats)
         out["samples"] = w.samples
